@@ -363,6 +363,8 @@ func runC15(c *Ctx) {
 	r.Rule("R1", "at every handler-invocation site the line argument is a forwarded parameter of a Handle wrapper, or the single-use result of a (*Line).Copy call evaluated once per invocation")
 	r.Rule("R2", "(*Line).Copy starts from a whole-struct copy and, for every reference-typed field of Line (enumerated from go/types; time.Time exempt), stores a fresh allocation filled element-wise from the source on every path where the source field may be non-nil")
 	r.Rule("R3", "the parsed line the copies are taken from is never reused: every value sent on the inbound queue is freshly allocated for that read by the parser, together with its argument slice and tag map (the detached background dispatch copies it later, while the receive goroutine is already parsing the next line)")
+	r.Rule("R4", "an event is not edited once it has been dispatched: after a call of Conn.dispatch no store into the dispatched Line (a field, an element of its argument slice, an entry of its tag map) is reachable in the calling function - the detached background dispatch takes its copies later, so an edit for the next event would reach handlers of this one")
+	c.dispatchedLineFrozenRule("R4")
 	c.freshParsedLineRule("R3")
 	copyFn := c.Func(c.Client, "(*Line).Copy")
 	r.Anchor("R1", "(*Line).Copy", copyFn != nil)
@@ -875,4 +877,70 @@ func (c *Ctx) lockFieldName(pk *ssa.Package, typ string) string {
 		}
 	}
 	return pk.Pkg.Name() + "." + typ + ".?"
+}
+
+// dispatchedLineFrozenRule: C15.R4.
+func (c *Ctx) dispatchedLineFrozenRule(rule string) {
+	r, a := c.R, c.A
+	n := 0
+	for _, fn := range c.clientFuncs() {
+		for _, cs := range CallSites(fn) {
+			hit := false
+			for _, e := range c.Callees(cs) {
+				if e.Callee == a.ConnDispatch {
+					hit = true
+				}
+			}
+			args := cs.Common().Args
+			if !hit || len(args) < 2 {
+				continue
+			}
+			n++
+			line := args[len(args)-1]
+			lo := c.Origins(line)
+			var into func(v ssa.Value, depth int) bool
+			into = func(v ssa.Value, depth int) bool {
+				if v == nil || depth > 8 {
+					return false
+				}
+				if typeString(v.Type()) == typeString(line.Type()) && sameRoots(c.Origins(v), lo) {
+					return true
+				}
+				switch t := v.(type) {
+				case *ssa.FieldAddr:
+					return into(t.X, depth+1)
+				case *ssa.IndexAddr:
+					return into(t.X, depth+1)
+				case *ssa.Slice:
+					return into(t.X, depth+1)
+				case *ssa.UnOp:
+					if t.Op == token.MUL {
+						return into(t.X, depth+1)
+					}
+				case *ssa.Phi:
+					for _, ed := range t.Edges {
+						if into(ed, depth+1) {
+							return true
+						}
+					}
+				}
+				return false
+			}
+			bad := ""
+			for in := range ReachFrom(cs, false, nil) {
+				switch t := in.(type) {
+				case *ssa.Store:
+					if into(t.Addr, 0) {
+						bad = "store into the dispatched line at " + c.InstrPos(t)
+					}
+				case *ssa.MapUpdate:
+					if into(t.Map, 0) {
+						bad = "map update in the dispatched line at " + c.InstrPos(t)
+					}
+				}
+			}
+			r.Add(rule, "frozen-after-dispatch:"+c.FuncKey(fn), c.InstrPos(cs), c.FuncKey(fn), "the line handed to Conn.dispatch is not written afterwards in "+c.FuncKey(fn), bad == "", bad)
+		}
+	}
+	r.Floor(rule, "call sites of Conn.dispatch", n, 3)
 }
